@@ -359,6 +359,8 @@ class DistSystem:
             da = (da % 4).astype('int64')
         elif kind == 'tplundeclared_last':
             da = da.copy(); da.reshape(-1)[-1] = 7       # the undeclared hypothesis value sits in the LAST guess column of the last row
+        elif kind == 'traces_f16':
+            tr = tr.astype('float16')                     # a numeric batch the compiled kernels have no signature for (refused at dispatch, after every explicit check)
         elif kind == 'traces_str':
             tr = tr.astype('U8')                          # an ndarray, but not a numeric one
         elif kind == 'notbuilt':
